@@ -502,6 +502,7 @@ def rule_G(ctx):
         'climbing track (3D length differs from 2D length)': ([(0, 0, 0), (3, 4, 12), (6, 8, 0), (9, 12, 40)], [0.0, 1.0, 2.0, 3.0]),
         'two fixes recorded at the same instant': ([(0, 0, 0), (6, 8, 0), (12, 16, 0), (12, 26, 5), (22, 26, 5)], [0.0, 2.0, 2.0, 6.0, 8.0]),
         'across New Year midnight (second 10 is 1 January, 00:00:00.000)': ([(0, 0, 0), (8, 6, 2), (8, 26, 2), (20, 42, 10), (20, 52, 10)], [0.0, 4.0, 10.0, 16.0, 20.0]),
+        'starting at the epoch itself (1970-01-01 00:00:00.000), 2D length exactly 3': ([(0, 0, 0), (0.6, 0.8, 5), (0.6, 2.8, 5)], [0.0, 4.0, 10.0]),
     }
 
     def build(pts, times):
@@ -510,7 +511,7 @@ def rule_G(ctx):
     def lerp(pts, xs, a):
         """piecewise-linear interpolant of the vertices pts at abscissa a (xs strictly or weakly increasing)"""
         for i in range(1, len(xs)):
-            if xs[i - 1] < a <= xs[i] or (i == 1 and a == xs[0]):
+            if xs[i - 1] < a <= xs[i] or (i == 1 and a == xs[0]) or (i == len(xs) - 1 and xs[i] < a <= xs[i] + 1e-9 * max(1.0, abs(xs[i]))):
                 if xs[i] == xs[i - 1]:
                     continue
                 w = (a - xs[i - 1]) / (xs[i] - xs[i - 1])
@@ -553,7 +554,7 @@ def rule_G(ctx):
             found.setdefault((case['mode'], 'table'), ('the feature table is reset by resampling', dict(case, **{'features listed': names})))
     TEMP, SPAT = consts['MODE_TEMPORAL'], consts['MODE_SPATIAL']
     for label, (pts, times) in tracks.items():
-        E0[0] = EPOCH_NEW_YEAR if 'New Year' in label else EPOCH_DEFAULT
+        E0[0] = EPOCH_NEW_YEAR if 'New Year' in label else (0.0 if 'epoch itself' in label else EPOCH_DEFAULT)
         dur = times[-1] - times[0]
         # temporal: numeric steps (dividing the duration, not dividing it, longer than it), lists and a reference track
         for step in (dur / 4.0, dur / 3.0 + 0.1, dur, dur * 1.5, 1.0):
@@ -572,10 +573,14 @@ def rule_G(ctx):
             [(lerp(pts, times, a), a) for a in inst if times[0] < a <= times[-1] + 1e-9])
         lists = [[times[0] - 5, times[0], times[0] + 0.5, (times[0] + times[-1]) / 2, times[-1], times[-1] + 3],
                  [t_ for t_ in times], [times[-1]], [times[0] - 2, times[0] - 1], [times[-1] + 1, times[-1] + 2], [times[0] + 0.25]]
+        if E0[0] == 0.0:
+            # (instants before 1970 are outside the calendar the library supports: not requested on the track that starts at the epoch)
+            lists = [[a for a in inst if a >= 0.0] for inst in lists]
+            lists = [inst for inst in lists if inst]
         for inst in lists:
             want = [(lerp(pts, times, a), a) for a in inst if times[0] < a <= times[-1]]
             run(label, pts, times, 'list of instants %r' % ([round(a, 3) for a in inst],), lambda inst=inst: [stamp(a) for a in inst], TEMP, want)
-        ref = [times[0] + 0.5 * k for k in range(-1, int(2 * dur) + 3)]
+        ref = [times[0] + 0.5 * k for k in range(0 if E0[0] == 0.0 else -1, int(2 * dur) + 3)]
         want = [(lerp(pts, times, a), a) for a in ref if times[0] < a <= times[-1]]
         run(label, pts, times, 'reference track sampled every 0.5 s from 0.5 s before to 1 s after', lambda ref=ref: build([(0, 0, 0)] * len(ref), ref), TEMP, want)
         # spatial: steps on the 2D polyline
@@ -583,7 +588,8 @@ def rule_G(ctx):
         for i in range(1, len(pts)):
             S.append(S[-1] + math.hypot(pts[i][0] - pts[i - 1][0], pts[i][1] - pts[i - 1][1]))
         full = [tuple(p_) + (tm,) for p_, tm in zip(pts, times)]
-        for ds in (S[-1] / 4.0, S[-1] / 3.0 + 0.01, S[-1] * 0.999, S[-1] * 2, 3.0):
+        # (decimal steps that divide the length in exact arithmetic but not in binary: 3 / 0.1 is 30.000000000000004)
+        for ds in (S[-1] / 4.0, S[-1] / 3.0 + 0.01, S[-1] * 0.999, S[-1] * 2, 3.0) + ((0.1, 0.2, 0.05, 0.3) if 'length exactly 3' in label else ()):
             nstep = int((S[-1] - S[0]) / ds + 1e-12)
             want = [(tuple(pts[0]), times[0])]
             for k in range(1, nstep + 1):
